@@ -273,9 +273,11 @@ func (lc *latCtx) int128() {
 		c.plan(c.value, 1)
 		var msgs []string
 		for _, sign := range []int8{0, 1} {
-			w, mem := lc.world()
-			x, _ := lc.i128(w, "x", true, map[int]int8{127: sign})
-			msgs = append(msgs, lc.wantBool(w, w.Call(fn, []Value{x}, mem), sign == 1, fmt.Sprintf("bit 127 = %d, all other bits arbitrary", sign))...)
+			msgs = append(msgs, lc.wantBoolAll(fn, func() (*World, []Value, *Memory) {
+				w, mem := lc.world()
+				x, _ := lc.i128(w, "x", true, map[int]int8{127: sign})
+				return w, []Value{x}, mem
+			}, sign == 1, fmt.Sprintf("bit 127 = %d, all other bits arbitrary", sign))...)
 		}
 		c.conclude(c.value, c.p.Pos(fn.Pos()), full, msgs)
 	}
@@ -292,22 +294,20 @@ func (lc *latCtx) int128() {
 		for k := 0; k < 128; k++ {
 			zero[k] = 0
 		}
-		w, mem := lc.world()
-		x, _ := lc.i128(w, "x", true, zero)
-		msgs = append(msgs, lc.wantBool(w, w.Call(fn, []Value{x}, mem), true, "all bits 0")...)
-		for k := 0; k < 128 && len(msgs) < 3; k++ {
-			// case split: some bit of hi is 1 (everything else arbitrary), or hi = 0 and some bit of lo is 1
-			fix := map[int]int8{k: 1}
-			desc := fmt.Sprintf("bit %d = 1, all other bits arbitrary", k)
-			if k < 64 {
-				for j := 64; j < 128; j++ {
-					fix[j] = 0
-				}
-				desc = fmt.Sprintf("hi = 0, bit %d = 1, the other bits of lo arbitrary", k)
-			}
+		msgs = append(msgs, lc.wantBoolAll(fn, func() (*World, []Value, *Memory) {
 			w, mem := lc.world()
-			x, _ := lc.i128(w, "x", true, fix)
-			msgs = append(msgs, lc.wantBool(w, w.Call(fn, []Value{x}, mem), false, desc)...)
+			x, _ := lc.i128(w, "x", true, zero)
+			return w, []Value{x}, mem
+		}, true, "all bits 0")...)
+		for k := 0; k < 128 && len(msgs) < 3; k++ {
+			// the 128 cases 'bit k is 1, all other bits arbitrary' cover every
+			// non-zero value; an undecided test of the other word is followed both ways
+			fix := map[int]int8{k: 1}
+			msgs = append(msgs, lc.wantBoolAll(fn, func() (*World, []Value, *Memory) {
+				w, mem := lc.world()
+				x, _ := lc.i128(w, "x", true, fix)
+				return w, []Value{x}, mem
+			}, false, fmt.Sprintf("bit %d = 1, all other bits arbitrary", k))...)
 		}
 		c.conclude(c.value, c.p.Pos(fn.Pos()), full, msgs)
 	}
@@ -343,7 +343,7 @@ func (lc *latCtx) int128() {
 			}
 		}
 		c.conclude(c.value, c.p.Pos(fn.Pos()), full, msgs)
-		c.sample(map[string]any{"function": latticeRel + ".Int128.{IsNegative,isZero,Abs}", "identity": "IsNegative == bit 127 for both values of the bit and all other bits arbitrary; isZero is true on 0 and false in each of the 128 cases 'bit k of hi is 1' / 'hi = 0 and bit k of lo is 1' (which cover every non-zero value); Abs returns x for bit 127 = 0 and a value == -x (mod 2^128) for bit 127 = 1"})
+		c.sample(map[string]any{"function": latticeRel + ".Int128.{IsNegative,isZero,Abs}", "identity": "IsNegative == bit 127 for both values of the bit and all other bits arbitrary; isZero is true on 0 and false in each of the 128 cases 'bit k is 1, all other bits arbitrary' (which cover every non-zero value; a test that is undecided in a case is followed both ways, so the verdict does not depend on the order of the conjuncts); Abs returns x for bit 127 = 0 and a value == -x (mod 2^128) for bit 127 = 1"})
 	}
 }
 
@@ -363,6 +363,19 @@ func (lc *latCtx) tally(fn *ssa.Function, construct string, ok, n int, msgs []st
 			c.value.ExpectedMin -= rest
 		}
 	}
+}
+
+// wantBoolAll runs fn following both outcomes of every undecided branch and
+// checks that every path returns b: the verdict does not depend on the order
+// in which the function tests its conjuncts.
+func (lc *latCtx) wantBoolAll(fn *ssa.Function, build func() (*World, []Value, *Memory), b bool, when string) []string {
+	ws, outs := CallAll(fn, build)
+	for i, out := range outs {
+		if m := lc.wantBool(ws[i], out, b, when); len(m) > 0 {
+			return m
+		}
+	}
+	return nil
 }
 
 // wantBool checks that a run returned the concrete boolean b.
@@ -597,9 +610,11 @@ func (lc *latCtx) bigInt(tname string, n int, t types.Type) {
 		c.plan(c.value, 1)
 		var msgs []string
 		for _, sign := range []int8{0, 1} {
-			w, mem := lc.world()
-			xp, _ := lc.words(w, mem, t, "x", n, true, map[int]int8{int(N) - 1: sign})
-			msgs = append(msgs, lc.wantBool(w, w.Call(fn, []Value{xp}, mem), sign == 1, fmt.Sprintf("bit %d = %d, all other bits arbitrary", N-1, sign))...)
+			msgs = append(msgs, lc.wantBoolAll(fn, func() (*World, []Value, *Memory) {
+				w, mem := lc.world()
+				xp, _ := lc.words(w, mem, t, "x", n, true, map[int]int8{int(N) - 1: sign})
+				return w, []Value{xp}, mem
+			}, sign == 1, fmt.Sprintf("bit %d = %d, all other bits arbitrary", N-1, sign))...)
 		}
 		c.conclude(c.value, c.p.Pos(fn.Pos()), full, msgs)
 	}
@@ -634,24 +649,23 @@ func (lc *latCtx) bigInt(tname string, n int, t types.Type) {
 			for k := 383; k < 512; k++ {
 				zeroTop[k] = 0
 			}
-			w, mem := lc.world()
-			xp, _ := lc.words(w, mem, t, "x", n, true, zeroTop)
-			msgs = append(msgs, lc.wantBool(w, w.Call(fn, []Value{xp}, mem), true, "bits 383..511 are 0, all other bits arbitrary")...)
-			for k := 383; k < 512 && len(msgs) < 3; k++ {
-				fix := map[int]int8{k: 1}
-				desc := fmt.Sprintf("bit %d = 1, all other bits arbitrary", k)
-				if k == 383 {
-					for j := 384; j < 512; j++ {
-						fix[j] = 0
-					}
-					desc = "bits 384..511 are 0, bit 383 = 1"
-				}
+			msgs = append(msgs, lc.wantBoolAll(fn, func() (*World, []Value, *Memory) {
 				w, mem := lc.world()
-				xp, _ := lc.words(w, mem, t, "x", n, true, fix)
-				msgs = append(msgs, lc.wantBool(w, w.Call(fn, []Value{xp}, mem), false, desc)...)
+				xp, _ := lc.words(w, mem, t, "x", n, true, zeroTop)
+				return w, []Value{xp}, mem
+			}, true, "bits 383..511 are 0, all other bits arbitrary")...)
+			for k := 383; k < 512 && len(msgs) < 3; k++ {
+				// the 129 cases 'bit k is 1, all other bits arbitrary' cover every other
+				// value; a conjunct that is undecided in such a case is followed both ways
+				fix := map[int]int8{k: 1}
+				msgs = append(msgs, lc.wantBoolAll(fn, func() (*World, []Value, *Memory) {
+					w, mem := lc.world()
+					xp, _ := lc.words(w, mem, t, "x", n, true, fix)
+					return w, []Value{xp}, mem
+				}, false, fmt.Sprintf("bit %d = 1, all other bits arbitrary", k))...)
 			}
 			c.conclude(c.value, c.p.Pos(fn.Pos()), full, msgs)
-			c.sample(map[string]any{"function": full, "identity": "true when bits 383..511 are 0 (everything else arbitrary); false in each of the 129 cases 'bit k in 384..511 is 1' / 'bits 384..511 are 0 and bit 383 is 1' (which cover every other value): the value fits a non-negative int384"})
+			c.sample(map[string]any{"function": full, "identity": "true when bits 383..511 are 0 (everything else arbitrary); false in each of the 129 cases 'bit k in 383..511 is 1, all other bits arbitrary' (which cover every other value; an undecided conjunct is followed both ways): the value fits a non-negative int384"})
 		}
 	}
 	if tname == "int384" {
